@@ -236,6 +236,7 @@ SCOPE_TEMPLATES = [
     ("init-keyword-default", "class A:\n    def __init__(self, v=3):\n        self.v = v\nR = (A().v, A(4).v, A(v=5).v)\n"),
     ("class-in-class", "class A:\n    class B:\n        z = 4\n    def g(self):\n        return A.B.z\nR = (A.B.z, A().g())\n"),
     ("isinstance-mro", "class A:\n    pass\nclass B(A):\n    pass\nb1 = B()\nR = (isinstance(b1, A), type(b1).__name__, issubclass(B, A), B.__mro__[1].__name__)\n"),
+    ("keywords-named-like-interpreter-parameters", "def f(**kw):\n    return sorted(kw)\nclass A:\n    def m(self, **kw):\n        return sorted(kw)\nR = [f(self=1, func=2, func_name=3, ast_ctx=4), A().m(func=2, ast_ctx=4, args=5, kwargs=6)]\n"),
     ("posonly-kwargs", "def f(p, /, **kw):\n    return (p, kw)\ntry:\n    R = f(1, p=2)\nexcept TypeError:\n    R = 'TypeError'\n", "posonly-name-in-kwargs"),
 ]
 
